@@ -359,6 +359,9 @@ func (s *pState) render(cw *cwriter.Writer) (err error) {
 			close(s.iterDrop)
 			return err
 		}
+		// each row ends with a new line, so a frame of height rows would
+		// scroll its first row off the screen, out of reach of cursor up
+		height--
 	} else {
 		if s.reqWidth > 0 {
 			width = s.reqWidth
